@@ -366,7 +366,31 @@ LEDGER_STATEMENTS = [
     # one pattern text used by the case-insensitive operator and by the case-sensitive function
     ('SELECT DISTINCT account FROM #postings WHERE account ~ %s ORDER BY account', ('bank',)),
     ('SELECT DISTINCT account, grep(%s, account) AS m, subst(%s, "_", account) AS u ORDER BY account', ('bank', 'bank')),
+    # a lookup that must not write into the ledger's metadata, and a reader of the same key
+    ('SELECT account, any_meta(%s) AS m FROM #postings', ('note',)),
+    ('SELECT account, meta(%s) AS m, entry_meta(%s) AS e FROM #postings', ('note', 'note')),
 ]
+
+
+BOOL_CONSTANTS = [None, True, False, 0, 1]
+
+
+@cond('C09.fold.bool', quick=120,
+      bounds='x AND y, x OR y, NOT x, x AND y AND z, x OR y OR z with x, y, z from {NULL, TRUE, FALSE, 0, 1} given as literals (folded '
+             'by the compiler, if it folds them) and as columns of a one-row table: the same cell either way',
+      symbolic='(none)', enumerated='operands, form', params={'x': int, 'y': int, 'z': int, 'form': int}, group='C09.fold')
+def fold_bool(x, y, z, form):
+    vals = [pick(BOOL_CONSTANTS, v) for v in (x, y, z)]
+    form = enum_int(form, 0, 4)
+
+    def run():
+        build = [lambda a: ast.And([a[0], a[1]]), lambda a: ast.Or([a[0], a[1]]), lambda a: ast.Not(a[0]),
+                 lambda a: ast.And([a[0], a[1], a[2]]), lambda a: ast.Or([a[0], a[1], a[2]])][form]
+        table = HTable('t', [('cx', object), ('cy', object), ('cz', object)], [tuple(vals)])
+        r1 = run_cursor(connect(t=table), sel([target(build([const(v) for v in vals]), 'r')], 't'))
+        r2 = run_cursor(connect(t=table), sel([target(build([col('cx'), col('cy'), col('cz')]), 'r')], 't'))
+        return 'ok' if repr(r1[1]) == repr(r2[1]) else f'folded-boolean-differs: {r1[1]} / {r2[1]}'
+    return native(run)
 
 
 _FRESH = {}
